@@ -5,6 +5,7 @@ import XsdataModel.Proofs.C08Bridge
 import XsdataModel.Proofs.C08Sources
 import XsdataModel.Proofs.C08LxmlText
 import XsdataModel.Proofs.C08UnionAttrs
+import XsdataModel.Proofs.UserMap
 import XsdataModel.Proofs.C11Pipeline
 import XsdataModel.Backends.Serializers
 
@@ -191,6 +192,31 @@ example : unionRecordLive unionStore unionWitness ≠ unionSpec unionStore union
     ∧ unionRecordLive unionStore unionWitness
       = [.start "start".toList [], .start "label".toList [], .end "label".toList, .end "start".toList,
          .start "stop".toList [], .end "stop".toList] := by decide
+
+/-! ## writers: the user's prefix map -/
+
+/-- **user_map_default_not_also_prefixed**: whatever prefix map the caller gives to
+`XmlSerializer.render` / `TreeSerializer.render` — the default namespace under the `None` or the `""`
+key, before or after a prefix for the same URI — after `clean_prefixes` no URI is bound both as the
+default namespace and to a prefix.  (`XMLGenerator` maps a URI to the prefix declared last, so a
+surviving duplicate default makes the native writer write the attributes of that namespace
+unprefixed — in no namespace — while the lxml writer keeps them qualified.)  The lemma is C03's
+`cleanPrefixes_nodflt`; it is a property of the back-ends' agreement too. -/
+theorem user_map_default_not_also_prefixed (raw : List (Xs.Ns.Pfx × Str))
+    (hdecl : (Xs.Ns.cleanPrefixes raw).all Spec.XmlNs.declOK = true) (s u : Str)
+    (h : Py.dget (Xs.Ns.cleanPrefixes raw) (some s) = some u) :
+    Py.dget (Xs.Ns.cleanPrefixes raw) none ≠ some u :=
+  Proofs.UserMap.cleanPrefixes_nodflt raw hdecl s u h
+
+/-- `{"d": NS, "": NS}`: the default given under the empty-string key after the prefix is dropped -/
+example : Xs.Ns.cleanPrefixes [(some "d".toList, "urn:demo".toList), (some [], "urn:demo".toList)]
+      = [(some "d".toList, "urn:demo".toList)]
+    ∧ Xs.Ns.cleanPrefixes [(some "d".toList, "urn:demo".toList), (none, "urn:demo".toList)]
+      = [(some "d".toList, "urn:demo".toList)]
+    ∧ Xs.Ns.cleanPrefixes [(some [], "urn:demo".toList), (some "d".toList, "urn:demo".toList)]
+      = [(some "d".toList, "urn:demo".toList)] := by decide
+
+example : ([(some "d".toList, "urn:demo".toList)] : List (Xs.Ns.Pfx × Str)).all Spec.XmlNs.declOK = true := by decide
 
 /-! ## writers: indentation -/
 
